@@ -69,8 +69,12 @@ class RecTerm:
         # f"{term}" on a str-based term is its text (object.__format__ would realise the symbolic text)
         return self.text
 
+    truthy = None   # a literal's truthiness is that of its Python value (Literal(0), Literal(False) are falsy): set by shape
+
     def __bool__(self):
         # rdflib terms are str subclasses: a term with empty text is falsy
+        if self.truthy is not None:
+            return self.truthy
         if len(self.text) > 0:
             return True
         return False
@@ -163,6 +167,13 @@ def _mk(kind, a, b):
         return RecLit(a, lang=b)
     if kind == "typed":
         return RecLit(a, datatype=RecURI(b))
+    if kind == "falsy":
+        # a typed literal with a non-empty lexical form whose Python value is falsy ("0"^^xsd:integer, "false"^^xsd:boolean)
+        t = RecLit("0" + a, datatype=RecURI("d" + b))
+        t.truthy = False
+        return t
+    if kind == "typed-xsd-string":
+        return RecLit(a, datatype=RecURI("http://www.w3.org/2001/XMLSchema#string"))
     raise AssertionError(kind)
 
 
@@ -201,6 +212,9 @@ TABLES = {
     "no-rows": [],
     "three-rows": [["bnode", "plain"], [None, "uri"], ["bnode", None]],
     "all-unbound-first": [[None, None], ["plain", "plain"]],
+    "falsy-literal": [["falsy", "plain"]],
+    "xsd-string-typed": [["typed-xsd-string", "plain"]],
+    "same-form-other-language": [["lang", "lang"], ["plain", None]],
 }
 
 
@@ -320,6 +334,8 @@ class RecGen:
             raise ValueError("XML writer closes %s inside %s" % (local, el.tag))
 
     def characters(self, content):
+        if not content:
+            return   # xml.sax.saxutils.XMLGenerator.characters: `if content:` - falsy content writes nothing
         el = self.stack[len(self.stack) - 1]
         el.chunks.append(content if isinstance(content, str) or not isinstance(content, RecTerm) else str(content))
 
@@ -540,10 +556,10 @@ def bounds(tier):
     return {"k-json-term": "one term of each kind (IRI, blank node, plain / language-tagged / typed literal) whose lexical form and "
                            "language tag or datatype IRI are symbolic strings of length <= %d (the code does not scan them: length is "
                            "immaterial beyond empty / non-empty)" % (2 if tier == "quick" else 3),
-            "k-json-table": "6 table shapes over two variables (bound/unbound cells, all-unbound rows, no rows, repeated blank node), cell "
+            "k-json-table": "9 table shapes over two variables (bound/unbound cells, all-unbound rows, no rows, repeated blank node, a literal whose Python value is falsy, an explicitly xsd:string-typed literal, one lexical form under two language tags), cell "
                             "contents symbolic strings of length <= 1",
             "k-json-ask": "both boolean results",
-            "k-xml-table": "the same 6 table shapes through the SPARQL-XML writer and reader at the level of the element structure; premise: IRIs, "
+            "k-xml-table": "the same 9 table shapes through the SPARQL-XML writer and reader at the level of the element structure; premise: IRIs, "
                            "blank node labels, language tags and datatype IRIs are non-empty (no RDF term has an empty one; SPARQL-XML cannot "
                            "tell an absent from an empty attribute)",
             "k-xml-ask": "both boolean results",
